@@ -316,7 +316,9 @@ fn enumerate_mode(alphabet: &[u8], len: usize, context: &str, allow_cdata: bool,
 
 fn random_char(rng: &mut Rng) -> char {
     // valid scalar values whose encodings cover every continuation byte 0x80..=0xBF
-    let cp = match rng.below(4) {
+    let cp = match rng.below(5) {
+        // characters whose encoding contains the bytes 0x85 / 0xA0 (NEL / NBSP when misread as Latin-1 "white space")
+        4 => *rng.pick(&[0xE0u32, 0xA0, 0xC5, 0x445, 0x5168, 0x85, 0x2005, 0x1F605]),
         0 => 0x80 + rng.below(0x780) as u32,
         1 => 0xA0 + rng.below(0x60) as u32,
         2 => 0x800 + rng.below(0xD000) as u32,
